@@ -3,9 +3,6 @@
 From Coq Require Import String Ascii Sorting.Sorted Permutation.
 From Verif Require Import Base.Prelude Model.C21 Proofs.C21_order.
 
-Definition keyed := (string * row)%type.
-Definition kltb (a b : keyed) : bool := sltb (fst a) (fst b).
-
 Lemma sltb_asym x y : sltb x y = true -> sltb y x = false.
 Proof.
   unfold sltb. intro H. destruct (scmp x y) eqn:E; try discriminate.
@@ -26,25 +23,6 @@ Proof.
   rewrite !sltb_false. intros [H1| ->] [H2| ->]; auto.
   left. eapply (ok_trans _ scmp_order); eauto.
 Qed.
-Lemma kltb_asym x y : kltb x y = true -> kltb y x = false.
-Proof. apply sltb_asym. Qed.
-Lemma kltb_ntrans x y z : kltb y x = false -> kltb z y = false -> kltb z x = false.
-Proof. apply sltb_ntrans. Qed.
-
-Lemma take_group_split k l :
-  exists pre, l = pre ++ snd (take_group k l) /\ fst (take_group k l) = map snd pre /\
-              Forall (fun e : keyed => fst e = k) pre /\
-              match snd (take_group k l) with [] => True | e :: _ => fst e <> k end.
-Proof.
-  induction l as [|[k' r] l IH]; cbn.
-  - exists []. cbn. auto.
-  - destruct (String.eqb k k') eqn:E.
-    + destruct IH as [pre [E1 [E2 [F N]]]]. destruct (take_group k l) as [g rest]; cbn in *.
-      exists ((k', r) :: pre). cbn. repeat split; auto; try congruence.
-      constructor; auto. cbn. symmetry. apply String.eqb_eq, E.
-    + exists []. cbn. repeat split; auto. intro H. subst.
-      rewrite String.eqb_refl in E. discriminate.
-Qed.
 
 Lemma sorted_suffix {A} (R : A -> A -> Prop) l1 l2 :
   StronglySorted R (l1 ++ l2) -> StronglySorted R l2.
@@ -52,23 +30,47 @@ Proof.
   induction l1 as [|x l1 IH]; cbn; auto. intro S. inversion S; subst. auto.
 Qed.
 
-Section GroupBy.
+Section Grouping.
+  Context {R : Type}.
+  Definition keyed := (string * R)%type.
+  Definition kltb (a b : keyed) : bool := sltb (fst a) (fst b).
+
+  Lemma kltb_asym x y : kltb x y = true -> kltb y x = false.
+  Proof. apply sltb_asym. Qed.
+  Lemma kltb_ntrans x y z : kltb y x = false -> kltb z y = false -> kltb z x = false.
+  Proof. apply sltb_ntrans. Qed.
+
+  Lemma take_group_split k (l : list keyed) :
+    exists pre, l = pre ++ snd (take_group k l) /\ fst (take_group k l) = map snd pre /\
+                Forall (fun e : keyed => fst e = k) pre /\
+                match snd (take_group k l) with [] => True | e :: _ => fst e <> k end.
+  Proof.
+    induction l as [|[k' r] l IH]; cbn.
+    - exists []. cbn. auto.
+    - destruct (String.eqb k k') eqn:E.
+      + destruct IH as [pre [E1 [E2 [F N]]]]. destruct (take_group k l) as [g rest]; cbn in *.
+        exists ((k', r) :: pre). cbn.
+        split; [f_equal; exact E1|]. split; [f_equal; exact E2|]. split; [|exact N].
+        constructor; auto. cbn. symmetry. apply String.eqb_eq, E.
+      + exists []. cbn. repeat split; auto. intro H. subst.
+        rewrite String.eqb_refl in E. discriminate.
+  Qed.
+
   Variable keys : list string.
+  Variable tg : R -> tags.
 
   (** the sort key shared by the rows of a group *)
-  Definition gk (g : group) : string :=
-    match g_rows g with r :: _ => sort_key keys (fst r) | [] => EmptyString end.
-
+  Definition gk (g : list R) : string :=
+    match g with r :: _ => sort_key keys (tg r) | [] => EmptyString end.
   Definition keyed_ok (l : list keyed) : Prop :=
-    forall e, In e l -> fst e = sort_key keys (fst (snd e)).
+    forall e, In e l -> fst e = sort_key keys (tg (snd e)).
+  Definition group_ok (g : list R) : Prop :=
+    g <> [] /\ forall r, In r g -> sort_key keys (tg r) = gk g.
 
-  Definition group_ok (g : group) : Prop :=
-    g_rows g <> [] /\ forall r, In r (g_rows g) -> sort_key keys (fst r) = gk g.
-
-  Lemma split_groups_spec n : forall l,
+  Lemma split_groups_spec n : forall l : list keyed,
     length l <= n -> keyed_ok l -> StronglySorted (nlt kltb) l ->
-    let gs := split_groups n keys l in
-    flat_map g_rows gs = map snd l /\
+    let gs := split_groups n l in
+    concat gs = map snd l /\
     Forall group_ok gs /\
     StronglySorted (clt scmp) (map gk gs) /\
     (forall g, In g gs -> exists e, In e l /\ fst e = gk g).
@@ -88,7 +90,7 @@ Section GroupBy.
     assert (Srest : StronglySorted (nlt kltb) rest).
     { rewrite E1 in S'. eapply sorted_suffix, S'. }
     destruct (IH rest Hlen Krest Srest) as [I1 [I2 [I3 I4]]].
-    assert (Kk : k = sort_key keys (fst r)) by (apply (K (k, r)); left; reflexivity).
+    assert (Kk : k = sort_key keys (tg r)) by (apply (K (k, r)); left; reflexivity).
     (* every entry of the rest has a strictly larger key *)
     assert (Big : forall e, In e rest -> scmp k (fst e) = Lt).
     { rewrite Forall_forall in F'.
@@ -102,44 +104,116 @@ Section GroupBy.
       specialize (F1 e He). unfold nlt, kltb in F1. apply sltb_false in F1 as [H| H].
       - eapply (ok_trans _ scmp_order); eauto.
       - rewrite <- H. exact L1. }
-    cbn [flat_map g_rows map]. repeat split.
+    cbn [concat map]. repeat split.
     - cbn. rewrite I1, E2, E1, map_app. reflexivity.
-    - constructor; auto. split; cbn; [discriminate|].
-      unfold gk; cbn. intros r' [<-|Hr']; auto.
+    - constructor; auto. split; [discriminate|].
+      unfold gk. intros r' [<-|Hr']; auto.
       rewrite E2 in Hr'. apply in_map_iff in Hr' as [e [<- He]]. rewrite Forall_forall in F.
       rewrite <- (K e), (F e He); auto. right. rewrite E1. apply in_or_app; auto.
     - constructor; auto. rewrite Forall_forall. intros s Hs.
       apply in_map_iff in Hs as [g' [<- Hg']]. destruct (I4 g' Hg') as [e [He Ee]].
-      unfold clt. unfold gk at 1; cbn. rewrite <- Kk, <- Ee. apply Big, He.
+      unfold clt. unfold gk at 1. rewrite <- Kk, <- Ee. apply Big, He.
     - intros g' [<-|Hg'].
-      + exists (k, r). split; [left; reflexivity|]. unfold gk; cbn. exact Kk.
+      + exists (k, r). split; [left; reflexivity|]. unfold gk. exact Kk.
       + destruct (I4 g' Hg') as [e [He Ee]]. exists e. split; auto.
         right. rewrite E1. apply in_or_app; auto.
   Qed.
-End GroupBy.
+End Grouping.
 
-Definition kept_rows shs start end_ p (all_time : bool) : list row :=
-  filter (fun r => all_time || has_points r) (read_filter shs start end_ p).
-
-Lemma group_by_spec shs start end_ p keys all_time :
-  let gs := read_group shs start end_ p GroupBy keys all_time in
-  Permutation (flat_map g_rows gs) (kept_rows shs start end_ p all_time) /\
-  Forall (group_ok keys) gs /\
-  StronglySorted (clt scmp) (map (gk keys) gs).
+(** * The group read *)
+Lemma read_rows_tags ty sel lo hi rows : forall st,
+  map fst (fst (read_rows ty sel lo hi st rows)) = map srow_tags rows.
 Proof.
-  unfold read_group. cbn zeta. fold (kept_rows shs start end_ p all_time).
-  set (kept := kept_rows shs start end_ p all_time).
-  set (kd := map (fun r => (sort_key keys (fst r), r)) kept).
-  set (sorted := isort (fun a b : keyed => sltb (fst a) (fst b)) kd).
-  assert (K : keyed_ok keys sorted).
-  { intros e He. apply isort_in in He. apply in_map_iff in He as [r [<- _]]. reflexivity. }
-  destruct (split_groups_spec keys (length sorted) sorted (le_n _) K
-              (isort_sorted kltb kltb_asym kltb_ntrans kd)) as [H1 [H2 [H3 _]]].
-  split; [|split; [exact H2 | exact H3]].
-  change (Permutation (flat_map g_rows (split_groups (length sorted) keys sorted)) kept).
-  rewrite H1. transitivity (map snd kd).
-  - apply Permutation_map. symmetry. apply isort_perm.
-  - unfold kd. rewrite map_map. cbn. rewrite map_id. reflexivity.
+  induction rows as [|r rows IH]; intro st; cbn; auto. unfold read_one.
+  destruct (multi_cursor_v st (ty_of ty (r_f r)) (r_cond r) sel lo hi (r_s r) (r_f r)) as [pts st1].
+  specialize (IH st1). destruct (read_rows ty sel lo hi st1 rows) as [xs st2]. cbn in *.
+  rewrite IH. reflexivity.
+Qed.
+
+(** the series rows (identified by their tag sets) of each returned group *)
+Definition group_tags (gs : list group) : list (list tags) :=
+  map (fun g => map fst (g_rows g)) gs.
+
+Lemma read_groups_tags ty sel lo hi keys sgs : forall st,
+  group_tags (read_groups ty sel lo hi keys st sgs) = map (map srow_tags) sgs.
+Proof.
+  induction sgs as [|g sgs IH]; intro st; cbn; auto.
+  pose proof (read_rows_tags ty sel lo hi g st) as E.
+  destruct (read_rows ty sel lo hi st g) as [rows st']. cbn in *. rewrite E, IH. reflexivity.
+Qed.
+
+Lemma read_groups_vals ty sel lo hi keys sgs : forall st,
+  map g_vals (read_groups ty sel lo hi keys st sgs)
+  = map (fun g => part_vals keys (match g with r :: _ => srow_tags r | [] => [] end)) sgs.
+Proof.
+  induction sgs as [|g sgs IH]; intro st; cbn; auto.
+  destruct (read_rows ty sel lo hi st g) as [rows st']. cbn. rewrite IH. reflexivity.
+Qed.
+
+(** the rows kept by the sorting pass of a group read *)
+Definition kept_srows ty shs start end_ p (all_time : bool) : list srow :=
+  let lo := clamp_start start in
+  let e := clamp_end end_ in
+  let sel := select_shards shs lo e in
+  fst (sort_pass ty sel lo (e - 1) all_time [] (srows sel p)).
+
+Lemma sort_pass_incl ty sel lo hi all_time rows : forall st r,
+  In r (fst (sort_pass ty sel lo hi all_time st rows)) -> In r rows.
+Proof.
+  induction rows as [|x rows IH]; intros st r; cbn; auto.
+  destruct all_time.
+  - specialize (IH st r). destruct (sort_pass ty sel lo hi true st rows). cbn in *. tauto.
+  - destruct (read_one ty sel lo hi st x) as [y st1]. specialize (IH st1 r).
+    destruct (sort_pass ty sel lo hi false st1 rows). cbn in *.
+    destruct (has_points y); cbn; tauto.
+Qed.
+Lemma sort_pass_all_time ty sel lo hi rows st :
+  fst (sort_pass ty sel lo hi true st rows) = rows.
+Proof.
+  induction rows as [|x rows IH]; cbn; auto.
+  destruct (sort_pass ty sel lo hi true st rows). cbn in *. congruence.
+Qed.
+
+Lemma gk_map keys (g : list srow) :
+  gk keys (fun t : tags => t) (map srow_tags g) = gk keys srow_tags g.
+Proof. destruct g; reflexivity. Qed.
+Lemma group_ok_map keys (g : list srow) :
+  group_ok keys srow_tags g -> group_ok keys (fun t : tags => t) (map srow_tags g).
+Proof.
+  intros [NE H]. split.
+  - destruct g; [congruence|discriminate].
+  - intros t Ht. apply in_map_iff in Ht as [r [<- Hr]]. rewrite gk_map. apply H, Hr.
+Qed.
+
+Lemma group_by_spec ty shs start end_ p keys all_time :
+  let gs := read_group ty shs start end_ p GroupBy keys all_time in
+  Permutation (concat (group_tags gs)) (map srow_tags (kept_srows ty shs start end_ p all_time)) /\
+  Forall (group_ok keys (fun t => t)) (group_tags gs) /\
+  StronglySorted (clt scmp) (map (gk keys (fun t => t)) (group_tags gs)).
+Proof.
+  unfold read_group, kept_srows. cbn zeta.
+  set (lo := clamp_start start). set (e := clamp_end end_). set (sel := select_shards shs lo e).
+  destruct (sort_pass ty sel lo (e - 1) all_time [] (srows sel p)) as [kept st1]. cbn [fst].
+  set (kd := map (fun r => (sort_key keys (srow_tags r), r)) kept).
+  rewrite read_groups_tags.
+  match goal with |- context [split_groups ?n ?l] =>
+    assert (K : keyed_ok keys srow_tags l);
+    [ intros x He; apply isort_in in He; apply in_map_iff in He as [r [<- _]]; reflexivity |];
+    destruct (split_groups_spec keys srow_tags n l (le_n _) K
+                (isort_sorted kltb kltb_asym kltb_ntrans kd)) as [H1 [H2 [H3 _]]];
+    assert (P : Permutation (map snd l) kept);
+    [ transitivity (map snd kd);
+      [ apply Permutation_map; symmetry; apply isort_perm
+      | unfold kd; rewrite map_map; cbn; rewrite map_id; reflexivity ] |];
+    rewrite <- H1 in P; clear H1 K;
+    generalize dependent (split_groups n l)
+  end.
+  intros sgs H2 H3 P.
+  split; [|split].
+  - rewrite <- concat_map. apply Permutation_map, P.
+  - rewrite Forall_forall in *. intros g Hg. apply in_map_iff in Hg as [g' [<- Hg']].
+    apply group_ok_map, H2, Hg'.
+  - rewrite map_map. erewrite map_ext; [exact H3|]. intro g. apply gk_map.
 Qed.
 
 Lemma nodup_map_inj {A B} (f : A -> B) l a b :
@@ -151,27 +225,30 @@ Proof.
   - exfalso. apply H1. rewrite <- E. apply in_map, Ha.
 Qed.
 
-(** no row belongs to two different groups *)
-Lemma group_by_exactly_one shs start end_ p keys all_time g1 g2 r :
-  let gs := read_group shs start end_ p GroupBy keys all_time in
-  In g1 gs -> In g2 gs -> In r (g_rows g1) -> In r (g_rows g2) -> g1 = g2.
+(** no series row belongs to two different groups *)
+Lemma group_by_exactly_one ty shs start end_ p keys all_time g1 g2 t :
+  let gs := group_tags (read_group ty shs start end_ p GroupBy keys all_time) in
+  In g1 gs -> In g2 gs -> In t g1 -> In t g2 -> g1 = g2.
 Proof.
   intros gs H1 H2 R1 R2.
-  destruct (group_by_spec shs start end_ p keys all_time) as [_ [F S]]. fold gs in F, S.
+  destruct (group_by_spec ty shs start end_ p keys all_time) as [_ [F S]]. fold gs in F, S.
   rewrite Forall_forall in F.
-  apply (nodup_map_inj (gk keys) gs); auto.
+  apply (nodup_map_inj (gk keys (fun t => t)) gs); auto.
   - apply (sorted_nodup _ scmp_order), S.
-  - rewrite <- (proj2 (F g1 H1) r R1), <- (proj2 (F g2 H2) r R2). reflexivity.
+  - rewrite <- (proj2 (F g1 H1) t R1), <- (proj2 (F g2 H2) t R2). reflexivity.
 Qed.
 
-(** GroupNone: a single group holding all rows of the filter read, in the same order *)
-Lemma group_none_spec shs start end_ p keys all_time :
-  let gs := read_group shs start end_ p GroupNone keys all_time in
-  (kept_rows shs start end_ p all_time = [] /\ gs = []) \/
-  (exists g, gs = [g] /\ g_rows g = read_filter shs start end_ p /\ g_vals g = []).
+(** GroupNone: a single group over ALL series rows of the request, in cursor order *)
+Lemma group_none_spec ty shs start end_ p keys all_time :
+  let gs := read_group ty shs start end_ p GroupNone keys all_time in
+  (kept_srows ty shs start end_ p all_time = [] /\ gs = []) \/
+  (exists g, gs = [g] /\ g_vals g = [] /\
+     map fst (g_rows g) =
+     map srow_tags (srows (select_shards shs (clamp_start start) (clamp_end end_)) p)).
 Proof.
-  unfold read_group. cbn zeta. fold (kept_rows shs start end_ p all_time).
-  destruct (kept_rows shs start end_ p all_time); [left; auto|right]. eexists; cbn; eauto.
+  unfold read_group, kept_srows. cbn zeta.
+  destruct (sort_pass _ _ _ _ _ _ _) as [kept st1]. cbn [fst].
+  destruct kept; [left; auto|right]. eexists; repeat split. cbn. apply read_rows_tags.
 Qed.
 
 (** * The sort key orders partition-value tuples *)
